@@ -102,7 +102,7 @@ def main():
             "quick_cmd": f"./run {pid} quick",
             "thorough_cmd": f"./run {pid} thorough",
             "evidence_file": f"/verif/evidence/{pid}.json",
-            "replay_cmd_template": "cat {path}",
+            "replay_cmd_template": "./run --replay {path}",
             "engine": c["engine"],
             "level_claimed": {"category": c.get("category", "exploration"), "text": c["text"], "design_ref": c["ref"]},
             "level_note": c["note"],
